@@ -78,6 +78,13 @@ func callerUntouched(o *hlib.Out, idx int, sc sslCase, before, after *cfgObs, in
 // (HostnameAndPort, WrapTLS, tlsConfigForAddr, TLS handshake) -> Conn.init (CQL handshake)
 func runChain(o *hlib.Out, p *pki, sc *sslCase, hostname string, ip net.IP, sv serverCert, a AuthSpec, fs []FrameSpec, si int,
 	approvedBy func([]byte, [][]byte) bool, plainToken func(u, p []byte) []byte) {
+	runChainHost(o, p, sc, hostname, ip, nil, sv, a, fs, si, approvedBy, plainToken)
+}
+
+// resolved != nil: the host comes from the driver's own contact-point resolution (hostname is then the
+// contact point's name, which is what the model dials)
+func runChainHost(o *hlib.Out, p *pki, sc *sslCase, hostname string, ip net.IP, resolved *gocql.HostInfo, sv serverCert, a AuthSpec, fs []FrameSpec, si int,
+	approvedBy func([]byte, [][]byte) bool, plainToken func(u, p []byte) []byte) {
 	s := Scenario{Auth: a, Frames: fs, Proto: 4}
 	r := &responder{frames: fs}
 	tlsServerOK := false
@@ -101,7 +108,13 @@ func runChain(o *hlib.Out, p *pki, sc *sslCase, hostname string, ip net.IP, sv s
 		cfg.SslOpts, caller = p.sslOptions(*sc)
 	}
 	before := p.obs(caller)
-	ok, err := gocql.VerifC20Connect(context.Background(), cfg, hostname, ip, 9042)
+	var ok bool
+	var err error
+	if resolved != nil {
+		ok, err = gocql.VerifC20ConnectHost(context.Background(), cfg, resolved)
+	} else {
+		ok, err = gocql.VerifC20Connect(context.Background(), cfg, hostname, ip, 9042)
+	}
 	hung := !d.wait()
 	after := p.obs(caller)
 
@@ -127,6 +140,9 @@ func runChain(o *hlib.Out, p *pki, sc *sslCase, hostname string, ip net.IP, sv s
 	if sc != nil {
 		sslTerm = hlib.Some(p.sslTerm(*sc, before))
 		kind = "chain/tls"
+	}
+	if resolved != nil {
+		kind = "chain/contact-point"
 	}
 	idx := o.Case(kind, true, fmt.Sprintf("CChain %s %s %s %d %s %s %s %d %d %d %s", sslTerm, hlib.ZList([]byte(host)), hlib.ZList([]byte("9042")),
 		sv.issuer, strListTerm(sv.names), authTerm(a), framesTerm(fs), stage, code, srv, bytesListTerm(r.res.Toks)))
